@@ -3,15 +3,29 @@ ID = "C11"
 LEVEL = "proof"
 # translator tie: these kernels are regenerated from /repo on every run and re-proved equal to the model (coq/C11/GenEquiv.v)
 TRANSLATE = [("translate/kernels_chrono.json", "coq/Gen/Gen_chrono.v")]
-HARNESSES = [{"name": "main", "src": "harness.cpp", "flags": ["-O1", "-DTETL_ENABLE_CONTRACT_CHECKS=1"]}]
+HARNESSES = [
+    {"name": "main", "src": "harness.cpp", "flags": ["-O1", "-DTETL_ENABLE_CONTRACT_CHECKS=1"]},
+    # the same cases under ASan + UBSan: a signed overflow or an out-of-bounds table read inside the documented domain
+    # kills the child ("crash <sig>" != model) instead of passing unnoticed (this is how 5f4dacf's defect shows up)
+    {"name": "san", "src": "harness.cpp",
+     "flags": ["-O1", "-DTETL_ENABLE_CONTRACT_CHECKS=1", "-fsanitize=address,undefined", "-fno-sanitize-recover=all"]},
+    # a second compiler at -O2
+    {"name": "clang", "src": "harness.cpp", "compiler": "clang++-14", "flags": ["-O2", "-DTETL_ENABLE_CONTRACT_CHECKS=1"]},
+]
 
 DAY_LO, DAY_HI = -12687428, 11248737
 ERA = 146097
 
-RULE = ("exhaustive windows around every 400-year era boundary, around year ends of boundary years, "
+RULE = ("kernels: exhaustive windows around every 400-year era boundary, around year ends of boundary years, "
         "the first/last supported days, a stride sweep of the whole range, every (y,m,d in 0..32) for boundary years, "
-        "every month x delta in [-40,40], every weekday x delta in [-20,20], plus seeded random days/dates; "
-        "non-trivial = distinct case line whose impl outcome is ok (all are, inside the domain)")
+        "every month x delta in [-40,40], every weekday x delta in [-20,20], seeded random days/dates, int32 day counts up to the "
+        "overflow boundary and every stored (y,m,d) class for totality; calendar types: year/month/day arithmetic and comparisons "
+        "on boundary + random values (incl. stored values 0..255 and deltas up to int32 limits), ok() of every partial date over "
+        "m 0..14/254/255 x d 0..33/254/255 x weekday 0..8 x index 0..7/200, year_month_day +/- months/years over boundary years with "
+        "end-of-month days, year_month_day_last / year_month_weekday(_last) for every month x weekday x index 0..7 of boundary + random "
+        "years, year_month_weekday <-> sys_days on a stride sweep + era boundaries + whole years, ==/!= of every type on near-equal "
+        "tuples, every operator/ spelling; three harness builds (g++ -O1, g++ ASan+UBSan, clang++ -O2); "
+        "non-trivial = distinct case line whose impl outcome is ok")
 
 TRUSTED_BASE = ["reference leg: libstdc++ 12 std::chrono calendar types on the same inputs"]
 ASSUMPTIONS = ["LP64, int is 32 bits, two's complement", "sys_days::rep is int32 (etl::chrono::days)"]
